@@ -65,7 +65,14 @@ def c_classes(c: scope.Case, lay) -> List[str]:
     return sorted(out)
 
 
+def _short(x):
+    """Long vectors (BIG cases) are abbreviated in messages; the replay file carries them in full."""
+    r = repr(x)
+    return r if len(r) <= 400 else r[:200] + " ...(%d chars)... " % len(r) + r[-100:]
+
+
 def _viol(out, pid, check, symptom, site, c, lay, desc, detail, vec=None, config=None):
+    desc = desc if len(desc) <= 1500 else desc[:1000] + " ...(%d chars)... " % len(desc) + desc[-300:]
     out.violation(check=check, symptom=symptom, site=site, features=pycodec.case_features(c, lay) + ["config:%s" % config],
                   sig_features=[config] if symptom in ("fault", "build") else [],
                   desc="%s :: [%s] %s" % (c.desc, config, desc), detail=detail, schema=pycodec.schema_text(c), value=vec,
@@ -73,6 +80,12 @@ def _viol(out, pid, check, symptom, site, c, lay, desc, detail, vec=None, config
 
 
 def run_unit(unit):
+    if unit[0] == "BIGC":
+        _, pid, tier, k = unit
+        out = UnitOut()
+        with Scratch() as sc:
+            run_batch(pid, tier, [scope.big_space(codec_only=True)[k]], sc, out, variants("quick"))
+        return out.result()
     pid, tier, idxs = unit
     sp = pycodec.c_space(tier)
     cases = [sp[i] for i in idxs]
@@ -133,7 +146,10 @@ def run_batch(pid, tier, cases, sc, out, vlist, depth=0, tag="0"):
 def _run_case(pid, tier, c, r, h, variant, out, pymod, first_variant):
     lay = ref.layout(c.msg)
     leaves = [l for l in lay if l.is_value]
-    mode, vecs = values.value_space(leaves, pycodec.vmax(tier))
+    if "big" in c.feats:
+        mode, vecs = "PATTERNS", values.big_vectors(leaves)
+    else:
+        mode, vecs = values.value_space(leaves, pycodec.vmax(tier))
     if first_variant:
         out.count("states")
         for k in c_classes(c, lay):
@@ -215,7 +231,8 @@ def _run_case(pid, tier, c, r, h, variant, out, pymod, first_variant):
 def units(pid, tier):
     sp = pycodec.c_space(tier)
     idx = list(range(len(sp)))
-    return [(pid, tier, idx[i:i + BATCH]) for i in range(0, len(idx), BATCH)]
+    big = [("BIGC", pid, tier, k) for k in range(len(scope.big_space(codec_only=True)))] if pid == "C03" else []
+    return big + [(pid, tier, idx[i:i + BATCH]) for i in range(0, len(idx), BATCH)]
 
 
 def guards(acc):
